@@ -260,7 +260,7 @@ pub fn main(ctx: &Ctx) -> i32 {
             }
         });
     }
-    let kmax = ctx.tier.pick(6, 64);
+    let kmax = ctx.tier.pick(12, 64);
     par(4, |w| {
         let mut rng = Rng::lane(ctx.seed, 500 + w as u64);
         for k in 0..=kmax {
